@@ -53,9 +53,23 @@ def segment_of(n):
     if n["k"] == "call" and n.get("ck") == "mem" and callee(n).split("::")[-1] == "segment" and len(args(n)) == 2:
         base = pp(unwrap_view(obj(n))).replace(".vector()", "")
         return base, args(n)[0], args(n)[1]
+    if n["k"] == "call" and n.get("ck") == "mem" and callee(n).split("::")[-1] in ("head", "tail") and len(args(n)) == 1:
+        # head(k) = segment(0, k), tail(k) = segment(size - k, k)
+        base = pp(unwrap_view(obj(n))).replace(".vector()", "")
+        return base, (None if callee(n).split("::")[-1] == "head" else ("tail", args(n)[0])), args(n)[0]
     if n["k"] == "call" and n.get("ck") == "mem" and callee(n).split("::")[-1] == "vector" and not args(n):
         return pp(obj(n)), None, None
     return None
+
+
+def seg_eval(cv, size, begin, length):
+    """(begin, length) of a segment as sympy expressions; `size` is the element count of the container it is cut from"""
+    ln = size if length is None else cv.conv(length)
+    if begin is None:
+        return sp.Integer(0), ln
+    if isinstance(begin, tuple) and begin[0] == "tail":
+        return size - cv.conv(begin[1]), ln
+    return cv.conv(begin), ln
 
 
 def branches(e):
@@ -168,12 +182,12 @@ def rule_kfold(F, R):
             return
         fold, folds = cv.symbol(Fn), cv.symbol(Kn)
 
-        def ev(node, default):
-            return default if node is None else cv.conv(node)
         pieces = []
         for (ln, lb, ll), (rn, rb, rl), x in segs:
             rn0 = rn.replace(".vector()", "")
-            pieces.append(dict(dst=ln, db=ev(lb, sp.Integer(0)), dl=ev(ll, sizes[ln]), src=rn0, sb=ev(rb, sp.Integer(0)), sl=ev(rl, sizes.get(rn0, N)), node=x))
+            db, dl = seg_eval(cv, sizes[ln], lb, ll)
+            sb, sl = seg_eval(cv, sizes.get(rn0, N), rb, rl)
+            pieces.append(dict(dst=ln, db=db, dl=dl, src=rn0, sb=sb, sl=sl, node=x))
         # roles: the set written by one copy is the validation fold, the one written by two is the training set
         cnt = {nm: len([p_ for p_ in pieces if p_["dst"] == nm]) for nm in (A, B)}
         if sorted(cnt.values()) != [1, 2]:
@@ -271,7 +285,7 @@ def rule_random(F, R):
         if ok:
             (tn, tb, tl), _ = segs[A]
             (vn, vb, vl), _ = segs[B]
-            tb, tl, vb, vl = (cv.conv(x) for x in (tb, tl, vb, vl))
+            (tb, tl), (vb, vl) = seg_eval(cv, N, tb, tl), seg_eval(cv, N, vb, vl)
             srcs = {Sn, Sn + ".vector()"} | ({ro["world"]} if ro.get("world") else set())
             checks = [(tn.replace(".vector()", "") in srcs and vn.replace(".vector()", "") in srcs, "segments are not cut from the shuffled input"),
                       (zero(tb), "training part does not start at 0"), (zero(tl - nA), "training segment length != |train|"),
